@@ -229,6 +229,7 @@ def json_files(ctx, p):
             # a path is overwritten, not appended to; two files do not interfere
             path, other = B.path("a.json"), B.path("b.json")
             xgi.write_hif(xgi.Hypergraph([[1, 2, 3]]), path)
+            xgi.read_hif(path)  # read - write - read: what is read is the CURRENT content
             xgi.write_hif(net, other)
             xgi.write_hif(net, path)
             R = xgi.read_hif(path)
@@ -242,9 +243,13 @@ def json_files(ctx, p):
             net2.add_edge([x], idx=ctx.label("extra_e"))
             src2 = nets.snap(net2)
             if how.endswith("list"):
+                xgi.write_hif_collection([net2, net2], d, collection_name="c")
+                xgi.read_hif_collection(f"{d}/c_collection_information.json")  # read - rewrite - read
                 xgi.write_hif_collection([net, net2], d, collection_name="c")
                 names = ["0", "1"]
             else:
+                xgi.write_hif_collection({"first": net2, "second": net2}, d, collection_name="c")
+                xgi.read_hif_collection(f"{d}/c_collection_information.json")
                 xgi.write_hif_collection({"first": net, "second": net2}, d, collection_name="c")
                 names = ["first", "second"]
             col = xgi.read_hif_collection(f"{d}/c_collection_information.json")
@@ -255,6 +260,8 @@ def json_files(ctx, p):
                 _same_net(ctx, got[names[1]], net2, src2, "HIF collection member")
         elif how == "json":
             path = B.path("net.json")
+            xgi.write_json(xgi.Hypergraph([[1, 2, 3]]), path)
+            xgi.read_json(path)  # read - rewrite - read
             xgi.write_json(net, path)
             it = stubs.sint if ctx.symbolic else builtins.int
             R = xgi.read_json(path, nodetype=it, edgetype=it)
@@ -301,7 +308,15 @@ def text_files(ctx, p):
         warnings.simplefilter("ignore")
         if how == "edgelist":
             path = B.path("edges.txt")
+            xgi.write_edgelist(xgi.Hypergraph([[1, 2, 3], [4]]), path, delimiter=wd)
+            xgi.read_edgelist(path, delimiter=rd)  # read - rewrite - read
             xgi.write_edgelist(net, path, delimiter=wd)
+            # the documented cast may be any callable: one that returns tuples
+            tcast = lambda t: (cast(t), 0)
+            Rt = xgi.read_edgelist(path, delimiter=rd, nodetype=tcast)
+            gott = [set(m) for m in Rt._edge.values()]
+            wantt = [{(n, 0) for n in inc[e]} for e in src["edges"]]
+            ctx.require(nets.same(gott, wantt), "edge-list file read with a tuple-valued nodetype: members differ or edge order changed")
             R = xgi.read_edgelist(path, delimiter=rd, nodetype=cast)
             got = [set(m) for m in R._edge.values()]
             want = [inc[e] for e in src["edges"]]
@@ -335,6 +350,14 @@ def text_files(ctx, p):
                 for n in m:
                     memb.setdefault(n, set()).add(e)
             ctx.require(nets.same(incid(Rd), memb), "bipartite edge-list file read with dual=True is not the dual")
+            # nodetype and edgetype follow the ROLE, not the column: tag what the edge cast produced
+            ecast = lambda t: ("E", cast(t))
+            Rt = xgi.read_bipartite_edgelist(path, delimiter=rd, nodetype=cast, edgetype=ecast)
+            ctx.require(nets.same(incid(Rt), {("E", e): m for e, m in nonempty(inc).items()}), "bipartite edge-list file: nodetype/edgetype are not applied to nodes/edges respectively")
+            Rtd = xgi.read_bipartite_edgelist(path, delimiter=rd, nodetype=cast, edgetype=ecast, dual=True)
+            ctx.require(nets.same(incid(Rtd), {("E", n): es for n, es in memb.items()}), "bipartite edge-list file with dual=True: nodetype/edgetype are not applied to the (dual) nodes/edges respectively")
+            Rn = xgi.read_bipartite_edgelist(path, delimiter=rd, nodetype=cast, dual=True)
+            ctx.require(nets.same({_plain(k): v for k, v in incid(Rn).items()}, {_plain(str(n)): es for n, es in memb.items()}), "bipartite edge-list file with dual=True and only nodetype: cast applied to the wrong column")
             _fresh(ctx, R, "read_bipartite_edgelist")
     ctx.require(nets.same(src, nets.snap(net)), "writing changed its input")
 
